@@ -73,11 +73,11 @@ package hash
 //@   requires h != nil && h.replicas >= 0
 //@   let n = ite(old(replicas) > h.replicas, h.replicas, old(replicas))
 //@   loop 1 entry [starts-at-zero] i == 0
-//@   loop 1 invariant 0 <= i && replicas == n
+//@   loop 1 invariant 0 <= i && (i <= n || i == 0) && replicas == n && calls(hashFunc) == i
 //@   loop 1 iteration-ensures [one-position] len(h.keys) == at_head(len(h.keys)) + 1 && h.keys[at_head(len(h.keys))] == ret(h.hashFunc) && calls(hashFunc) == 1
 //@   loop 1 iteration-ensures [ring-gets-node] has(h.ring, ret(h.hashFunc))
 //@   ensures [replaces-previous] calls(h.Remove, node) == 1 && before(Remove, addNode) && before(Remove, hashFunc)
-//@   ensures [zero-adds-none] n <= 0 ==> calls(hashFunc) == 0
+//@   ensures [one-position-per-replica] calls(hashFunc) == ite(n > 0, n, 0)
 
 //@ func (*ConsistentHash).AddWithWeight
 //@   prop C13
